@@ -89,10 +89,36 @@ theorem wChain_nodup (c : Cfg) (s : State) (h : Inv c s) (k : Nat) : ((wChain c 
 
 /-! ### liveness side conditions carried along a run -/
 
+/-- the bank address converter (if installed) accepts the request's address -/
+def belongs (c : Cfg) (r : Req) : Bool := match c.bconv with
+  | none => true
+  | some v => (v.conv? r.addr).isSome
+
+theorem convFault_false (c : Cfg) (l : List Req) (h : ∀ r ∈ l, belongs c r = true) : convFault c l = false := by
+  unfold convFault
+  cases hv : c.bconv with
+  | none => rfl
+  | some v =>
+    simp only [List.any_eq_false]
+    intro r hr
+    have := h r hr
+    simp only [belongs, hv] at this
+    simp [Option.isSome_iff_ne_none.1 this]
+
+theorem pending_sub_arrived (c : Cfg) (s : State) (h : Inv c s) : ∀ r ∈ s.pending, r ∈ s.arrived := by
+  intro r hr
+  have : r ∈ s.arrived.filter (inB c (bankOf c r.addr)) := by
+    rw [← h.r (bankOf c r.addr)]
+    simp only [chain, List.map_append, List.filter_append, List.mem_append, List.mem_map, List.mem_filter]
+    exact Or.inr (Or.inr (Or.inl ⟨fresh r, ⟨r, ⟨hr, by simp [inB]⟩, rfl⟩, rfl⟩))
+  exact (List.mem_filter.1 this).1
+
 structure LI (c : Cfg) (s : State) : Prop where
   nb : s.banks.length = c.banks
   len : LenAll c s.banks
   ok : ∀ r ∈ s.arrived, maskOk r = true
+  bel : ∀ r ∈ s.arrived, belongs c r = true
+  cap : ∀ r ∈ s.arrived, capErr c.cap r.addr r.size = false
 
 theorem wBankAt_map (c : Cfg) (f : Bank → Bank) (bs : List Bank) (k : Nat)
     (h : ∀ b ∈ bs, Dom (wBank c b) (wBank c (f b))) : Dom (wBankAt c bs k) (wBankAt c (bs.map f) k) := by
@@ -111,6 +137,8 @@ theorem finalizePost_drop (c : Cfg) : ∀ (post : List Item) (log : List Req) (o
   | cons it rest ih =>
     intro log out resp
     simp only [finalizePost]
+    split
+    · exact ⟨0, by simp⟩
     cases hcm : commit it log with
     | none => exact ⟨0, by simp⟩
     | some p =>
@@ -123,14 +151,18 @@ theorem finalizePost_drop (c : Cfg) : ∀ (post : List Item) (log : List Req) (o
       · exact ⟨0, by simp, by simp [wPost, h1]⟩
 
 theorem finalizePost_nofault (c : Cfg) : ∀ (post : List Item) (log : List Req) (out resp : List Rsp),
-    (∀ it ∈ post, maskOk it.req = true) → (finalizePost c post log out resp).fault = false := by
+    (∀ it ∈ post, maskOk it.req = true ∧ capErr c.cap it.req.addr it.req.size = false) →
+    (finalizePost c post log out resp).fault = false := by
   intro post
   induction post with
   | nil => intro log out resp _; rfl
   | cons it rest ih =>
     intro log out resp hok
-    have hi := hok it (by simp)
+    have hi := (hok it (by simp)).1
     simp only [finalizePost]
+    split
+    · rename_i hcf
+      simp [capFault, (hok it (by simp)).2] at hcf
     cases hcm : commit it log with
     | none =>
       exfalso
@@ -169,7 +201,7 @@ theorem finalizeAt_LI (c : Cfg) (s : State) (j : Nat) (h : LI c s) : LI c (final
   cases hb : s.banks[j]? with
   | none => exact h
   | some b =>
-    refine ⟨by simpa using h.nb, ?_, h.ok⟩
+    refine ⟨by simpa using h.nb, ?_, h.ok, h.bel, h.cap⟩
     intro x hx
     rcases List.mem_or_eq_of_mem_set hx with hx | rfl
     · exact h.len x hx
@@ -188,7 +220,7 @@ theorem finalizeAt_nofault (c : Cfg) (s : State) (j : Nat) (h : Inv c s) (hl : L
       rw [← h.r j]
       simp only [chain, bankChain, hb, List.mem_append, List.mem_map]
       exact Or.inr ⟨it, Or.inl (by simp [bItems, hit]), rfl⟩
-    exact hl.ok _ (List.mem_filter.1 this).1
+    exact ⟨hl.ok _ (List.mem_filter.1 this).1, hl.cap _ (List.mem_filter.1 this).1⟩
 
 theorem finalizeFrom_w (c : Cfg) (k : Nat) : ∀ (ks : List Nat) (s : State), Inv c s → LI c s →
     (finalizeFrom c ks s).2 = false ∧ LI c (finalizeFrom c ks s).1 ∧
@@ -214,14 +246,14 @@ def accepts (c : Cfg) (s : State) (k : Nat) : Bool := match (finalize c s).1.ban
 /-! ### the other phases -/
 
 theorem tickPipes_LI (c : Cfg) (s : State) (h : Inv c s) (hl : LI c s) : LI c (tickPipes c s) := by
-  refine ⟨by simpa [tickPipes] using hl.nb, ?_, hl.ok⟩
+  refine ⟨by simpa [tickPipes] using hl.nb, ?_, hl.ok, hl.bel, hl.cap⟩
   intro b' hb'
   simp only [tickPipes] at hb'
   obtain ⟨b, hb, rfl⟩ := List.mem_map.1 hb'
   exact (pipe_w c b (h.wf b hb).1 (hl.len b hb)).2.1
 
 theorem tickDelays_LI (c : Cfg) (s : State) (h : Inv c s) (hl : LI c s) : LI c (tickDelays c s) := by
-  refine ⟨by simpa [tickDelays] using hl.nb, ?_, hl.ok⟩
+  refine ⟨by simpa [tickDelays] using hl.nb, ?_, hl.ok, hl.bel, hl.cap⟩
   intro b' hb'
   simp only [tickDelays] at hb'
   obtain ⟨b, hb, rfl⟩ := List.mem_map.1 hb'
@@ -244,11 +276,11 @@ theorem foldl_dispatch_length (c : Cfg) : ∀ (todo : List Req) (st : List Bank 
       · rfl
 
 theorem dispatch_LI (c : Cfg) (s : State) (h : Inv c s) (hl : LI c s) : LI c (dispatch c s) := by
-  refine ⟨?_, ?_, hl.ok⟩
+  refine ⟨?_, ?_, hl.ok, hl.bel, hl.cap⟩
   · simp only [dispatch]; rw [foldl_dispatch_length]; exact hl.nb
   · exact (dispatch_fold_w c 0 s.pending (s.banks, []) h.wf hl.len (by intro r' hr'; simp at hr')).1
 
-theorem drainTop_LI (c : Cfg) (s : State) (hl : LI c s) : LI c (drainTop s) := ⟨hl.nb, hl.len, hl.ok⟩
+theorem drainTop_LI (c : Cfg) (s : State) (hl : LI c s) : LI c (drainTop s) := ⟨hl.nb, hl.len, hl.ok, hl.bel, hl.cap⟩
 
 /-! ### one tick -/
 
@@ -384,9 +416,15 @@ theorem afterFin_w (c : Cfg) (hd0 : 0 < c.depth) (hp : 0 < c.post) (s1 : State) 
       exact Strict.append _ _ (Dom.trans (Dom.append (Dom.trans dP dD) (Dom.refl _)) dX') s2' (by simp [hA])
 
 theorem tick_eq (c : Cfg) (s : State) (h : Inv c s) (hl : LI c s) : tick c s = afterFin c (finalize c s).1 := by
-  have := (finalizeFrom_w c 0 (List.range s.banks.length) s h hl).1
+  obtain ⟨this, hl1, _⟩ := finalizeFrom_w c 0 (List.range s.banks.length) s h hl
+  have h1 := finalize_inv c s h
+  have hcf : convFault c (tickDelays c (tickPipes c (finalize c s).1)).pending = false := by
+    apply convFault_false
+    intro r hr
+    exact hl1.bel r (pending_sub_arrived c _ h1 r hr)
   unfold tick
-  simp only [finalize, this, Bool.false_eq_true, if_false, afterFin]
+  simp only [finalize] at hcf
+  simp only [finalize, this, Bool.false_eq_true, if_false, afterFin, hcf]
 
 theorem tick_LI (c : Cfg) (s : State) (h : Inv c s) (hl : LI c s) : LI c (tick c s) := by
   rw [tick_eq c s h hl]
